@@ -11,7 +11,9 @@
 #[verifier::external_body] pub struct CfRule { _o: u8 }
 #[verifier::external_body] pub struct Link { _o: u8 }
 #[verifier::external_body] pub struct Color { _o: u8 }
-#[verifier::external_body] pub struct Worksheet { _o: u8 }
+#[verifier::external_body] pub struct WorksheetRest { _o: u8 }
+// the worksheet fields the user-model operations read directly (D5)
+pub struct Worksheet { pub name: String, pub color: Color, pub show_grid_lines: bool, pub state: SheetState, pub rest: WorksheetRest }
 #[verifier::external_body] pub struct ModelRest<'a> { _p: core::marker::PhantomData<&'a u8> }
 #[verifier::external_body] pub struct WorkbookRest { _o: u8 }
 impl Clone for Color { #[verifier::external_body] fn clone(&self) -> (r: Self) ensures r == *self { unimplemented!() } }
